@@ -69,8 +69,17 @@ fn ack(ops: Vec<Op>) -> chitchat::ChitchatMessage {
 /// Installs a copy of X on a fresh real node. Returns None when the real node does not end up
 /// holding exactly the requested copy (shape not installable through the wire).
 pub fn install(name: &str, port: u16, spec: &CopySpec) -> Option<Node> {
-    let x = member_x();
     let mut node = Node::new(&Id::v4(name, 0, port), &NodeOpts::default());
+    if install_on(&mut node, &member_x(), spec) {
+        Some(node)
+    } else {
+        None
+    }
+}
+
+/// Installs a copy of member `x` on an existing real node, through the wire.
+pub fn install_on(node: &mut Node, x: &Id, spec: &CopySpec) -> bool {
+    let x = x.clone();
     let syn = real::build_real(&Msg::Syn { digest: vec![DigestEntry { id: x.clone(), heartbeat: 1, gc: 0, mv: 0 }], cluster_id: "c".into() }).unwrap();
     node.cc.verif_process_message(syn);
     let maxkv = spec.entries.last().map(|e| e.1).unwrap_or(0);
@@ -88,16 +97,15 @@ pub fn install(name: &str, port: u16, spec: &CopySpec) -> Option<Node> {
         }
         node.cc.verif_process_message(ack(ops));
     }
-    let got = read_copy(&node)?;
-    if &got == spec {
-        Some(node)
-    } else {
-        None
-    }
+    read_copy_of(node, &x).as_ref() == Some(spec)
 }
 
 pub fn read_copy(node: &Node) -> Option<CopySpec> {
-    let ns = node.cc.node_state(&real::to_real_id(&member_x()))?;
+    read_copy_of(node, &member_x())
+}
+
+pub fn read_copy_of(node: &Node, x: &Id) -> Option<CopySpec> {
+    let ns = node.cc.node_state(&real::to_real_id(x))?;
     let mut entries: Vec<Ent> = ns
         .key_values_including_deleted()
         .map(|(k, vv)| (KEYS.iter().position(|x| *x == k).unwrap_or(9) as u8, vv.version, crate::node::status_kind(vv)))
@@ -119,12 +127,16 @@ fn values_ok(node: &Node) -> bool {
 
 /// Ops the sender is expected to emit for X, before truncation.
 pub fn expected_ops(s: &CopySpec, r: &CopySpec) -> Vec<Op> {
+    expected_ops_for(&member_x(), s, r)
+}
+
+pub fn expected_ops_for(x: &Id, s: &CopySpec, r: &CopySpec) -> Vec<Op> {
     if s.mv <= r.mv {
         return vec![];
     }
     let reset = r.gc < s.gc && r.mv < s.gc;
     let from = if reset { 0 } else { r.mv };
-    let mut ops = vec![Op::Node { id: member_x(), gc: s.gc, from }];
+    let mut ops = vec![Op::Node { id: x.clone(), gc: s.gc, from }];
     let stale: Vec<&Ent> = s.entries.iter().filter(|e| e.1 > from).collect();
     if stale.is_empty() {
         ops.push(Op::SetMax(s.mv));
@@ -626,6 +638,185 @@ pub fn arbitrary_sweep(vmax: u64, want: &[&str], deadline: Instant) -> Part {
     part
 }
 
+// ------------------------------------------------------------------ two members in one honest delta (C14)
+
+/// The companion member's (sender copy, receiver copy): every kind of member delta the sender can
+/// put next to X's in the same message.
+fn companion_cases() -> Vec<(&'static str, CopySpec, CopySpec)> {
+    let c = |gc: u64, mv: u64, entries: &[Ent]| CopySpec { gc, mv, entries: entries.to_vec() };
+    vec![
+        ("not-ahead", c(0, 2, &[(0, 2, 0)]), c(0, 2, &[(0, 2, 0)])),
+        ("incremental-one-entry", c(0, 3, &[(0, 2, 0), (1, 3, 0)]), c(0, 2, &[(0, 2, 0)])),
+        ("incremental-empty-tail", c(2, 3, &[(0, 2, 0)]), c(0, 2, &[(0, 2, 0)])),
+        ("reset-with-entry", c(3, 4, &[(0, 4, 0)]), c(0, 1, &[(0, 1, 0)])),
+        ("reset-empty-tail", c(3, 3, &[]), c(0, 1, &[(0, 1, 0)])),
+        ("three-entries", c(0, 3, &[(0, 1, 0), (1, 2, 1), (2, 3, 2)]), c(0, 0, &[])),
+    ]
+}
+
+fn ops_of_member(ops: &[Op], x: &Id) -> Vec<Op> {
+    let mut out = vec![];
+    let mut inside = false;
+    for op in ops {
+        match op {
+            Op::Node { id, .. } => {
+                inside = id == x;
+                if inside {
+                    out.push(op.clone());
+                }
+            }
+            _ if inside => out.push(op.clone()),
+            _ => {}
+        }
+    }
+    out
+}
+
+/// C14 with two members in the same delta: X ranges over the full sender x receiver sweep, the
+/// companion Y over `companion_cases`, Y's id sorting before or after X's, every order of an
+/// equal-staleness tie; whole-budget deltas (truncation is the single-member sweep's business).
+pub fn two_member_sweep(vmax: u64, want: &[&str], deadline: Instant) -> Part {
+    let mut part = Part::new(&format!("pair/two-members-in-one-delta(versions 0..{vmax})"));
+    part.rule = format!("sender and receiver both hold copies of two members X and Y; X: every installable sender copy (versions 0..={vmax}) x every receiver frontier with two contents; Y: one of 6 companion situations (not ahead, incremental with an entry, incremental with an empty tail, reset with an entry, reset with an empty tail, three stale entries); Y's id before / after X's; every scripted order of an equal-staleness tie; the sender's real whole-budget delta computed from the receiver's real digest must contain, for each member, exactly the ops of the admission table, and after delivery each copy must be the table's outcome and every member the sender was ahead on must have strictly progressed; non-trivial = messages carrying deltas of both members");
+    part.bounds = json!({"version_range": [0, vmax], "companions": 6, "id_orders": 2});
+    let senders = sender_copies(vmax);
+    let receivers = receiver_copies(vmax);
+    let companions = companion_cases();
+    part.tally.add("sender_copies", senders.len() as u64);
+    part.tally.add("receiver_copies", receivers.len() as u64);
+    let capped = std::sync::atomic::AtomicBool::new(false);
+    let x = member_x();
+    let y_ids = [Id::v4("a-companion", 3, 20_001), Id::v4("z-companion", 3, 20_002)];
+    let work: Vec<(&CopySpec, usize, usize)> = senders.iter().flat_map(|s| (0..companions.len()).flat_map(move |c| (0..2).map(move |o| (s, c, o)))).collect();
+    let results: Vec<(Tally, Vec<Viol>)> = work
+        .par_iter()
+        .map(|(sx, ci, oi)| {
+            let mut tally = Tally::default();
+            let mut viols: Vec<Viol> = vec![];
+            if Instant::now() > deadline {
+                capped.store(true, std::sync::atomic::Ordering::Relaxed);
+                return (tally, viols);
+            }
+            let (cname, sy, ry) = &companions[*ci];
+            let y = &y_ids[*oi];
+            let mut sender = Node::new(&Id::v4("s", 0, 10_001), &NodeOpts::default());
+            if !install_on(&mut sender, &x, sx) || !install_on(&mut sender, y, sy) {
+                tally.inc("sender_not_installable");
+                return (tally, viols);
+            }
+            for rx in &receivers {
+                let mut script = 0usize;
+                loop {
+                    tally.inc("cases");
+                    let replay = json!({"engine":"pair","kind":"two-members","sender":spec_json(sx),"receiver":spec_json(rx),"companion":cname,"companion_id":y.node_id,"tie_order":script});
+                    let mut recv = Node::new(&Id::v4("r", 0, 10_002), &NodeOpts::default());
+                    if !install_on(&mut recv, &x, rx) || !install_on(&mut recv, y, ry) {
+                        tally.inc("receiver_not_installable");
+                        break;
+                    }
+                    let syn = recv.cc.verif_create_syn_message();
+                    chitchat::verif::arm_choices(vec![script]);
+                    let reply = guarded(|| sender.cc.verif_compute_delta(&syn, 65_506));
+                    let log = chitchat::verif::disarm_choices();
+                    let arity = log.first().map(|c| c.arity).unwrap_or(1);
+                    if log.len() > 1 {
+                        tally.inc("machinery_several_tie_groups");
+                    }
+                    if arity > 1 {
+                        tally.inc("ties_enumerated");
+                    }
+                    let reply = match reply {
+                        Ok(Some(m)) => m,
+                        Ok(None) => break,
+                        Err(p) => {
+                            viols.push(Viol { prop: "C04", what: format!("sender panicked computing a delta: {p}"), sig: format!("panic:{}", short_loc(&p)), replay });
+                            break;
+                        }
+                    };
+                    let bytes = real::real_encode(&reply);
+                    let Ok(dec) = codec::decode(&bytes) else {
+                        viols.push(Viol { prop: "C08", what: "independent decoder rejects the sender's reply".into(), sig: "decode-disagreement".into(), replay });
+                        break;
+                    };
+                    let got = dec.msg.ops().to_vec();
+                    let mut both = 0;
+                    let (msg, _) = real::real_decode(&bytes).expect("real decoder must accept the real encoder's output");
+                    let before: Vec<CopySpec> = vec![read_copy_of(&recv, &x).unwrap(), read_copy_of(&recv, y).unwrap()];
+                    if let Err(p) = guarded(|| recv.cc.verif_process_message(msg)) {
+                        viols.push(Viol { prop: "C04", what: format!("receiver panicked applying an honest delta: {p}"), sig: format!("panic:{}", short_loc(&p)), replay });
+                        break;
+                    }
+                    for (i, (id, s, r)) in [(&x, *sx, rx), (y, sy, ry)].into_iter().enumerate() {
+                        let mine = ops_of_member(&got, id);
+                        let want_ops = expected_ops_for(id, s, r);
+                        if !mine.is_empty() {
+                            both += 1;
+                        }
+                        if mine != want_ops {
+                            viols.push(Viol {
+                                prop: "C14",
+                                what: format!("two members in one delta (companion {cname}): member {} sender {:?} receiver {:?}: {} ops in the delta, admission table expects {} ({})", if i == 0 { "X" } else { "Y" }, (s.gc, s.mv), (r.gc, r.mv), mine.len(), want_ops.len(), if mine.len() < want_ops.len() { "ops missing" } else { "ops differ" }),
+                                sig: "two-member-delta-content".into(),
+                                replay: replay.clone(),
+                            });
+                        }
+                        let after = read_copy_of(&recv, id).unwrap();
+                        let (dgc, dfrom, dents, dset) = split_member(&mine, id);
+                        let want_after = if mine.is_empty() { before[i].clone() } else { admit(&before[i], dgc, dfrom, &dents, dset).0 };
+                        if after != want_after {
+                            viols.push(Viol { prop: "C14", what: format!("two members in one delta: copy after delivery {} differs from the admission table {}", spec_json(&after), spec_json(&want_after)), sig: "receiver-outcome".into(), replay: replay.clone() });
+                        }
+                        if s.mv > r.mv && (after.gc, after.mv) <= (before[i].gc, before[i].mv) {
+                            viols.push(Viol {
+                                prop: "C14",
+                                what: format!("two members in one delta (companion {cname}): sender ahead on member {} ({:?} vs {:?}), whole budget available, yet the receiver's frontier did not progress", if i == 0 { "X" } else { "Y" }, (s.gc, s.mv), (r.gc, r.mv)),
+                                sig: "ahead-but-no-progress".into(),
+                                replay: replay.clone(),
+                            });
+                        }
+                        if (after.gc, after.mv) < (before[i].gc, before[i].mv) {
+                            viols.push(Viol { prop: "C04", what: "frontier decreased".into(), sig: "frontier-decreased".into(), replay: replay.clone() });
+                        }
+                    }
+                    if both == 2 {
+                        tally.inc("messages_with_both_members");
+                    }
+                    script += 1;
+                    if script >= arity || viols.len() > 20 {
+                        break;
+                    }
+                }
+                if viols.len() > 20 {
+                    break;
+                }
+            }
+            (tally, viols)
+        })
+        .collect();
+    let mut tally = Tally::default();
+    let mut viols = vec![];
+    for (t, v) in results {
+        tally.merge(&t);
+        viols.extend(v);
+    }
+    finish_part(&mut part, tally, viols, want);
+    part.states = part.tally.get("sender_copies") * part.tally.get("receiver_copies") * 12;
+    part.transitions = part.tally.get("cases");
+    part.executions = part.tally.get("cases");
+    part.distinct_nontrivial = part.tally.get("messages_with_both_members");
+    if capped.load(std::sync::atomic::Ordering::Relaxed) {
+        part.exhaustive = false;
+        part.caps_hit.push("wall cap: not every sender copy was processed".into());
+    }
+    part.sample(json!({"sender_x": spec_json(&senders[senders.len() / 2]), "receiver_x": spec_json(&receivers[receivers.len() / 3]), "companion": "incremental-one-entry"}));
+    part.require("messages_with_both_members");
+    part.require("ties_enumerated");
+    if part.tally.get("machinery_several_tie_groups") > 0 {
+        part.notes.push("MACHINERY: more than one tie group met with two members; tie orders not fully enumerated".into());
+    }
+    part
+}
+
 // ------------------------------------------------------------------ several members in one message (C20)
 
 /// The receiver knows X and Y at (gc 1, mv 2, {k1@2}); one message carries a delta for each, in
@@ -711,7 +902,7 @@ pub fn run(property: &'static str, tier: Tier, started: Instant) -> Vec<Part> {
     let want = [property];
     let d = |s: u64| started + std::time::Duration::from_secs(s);
     match property {
-        "C14" => vec![honest_sweep(tier.pick(5, 7), &want, d(tier.pick(45, 1800)))],
+        "C14" => vec![honest_sweep(tier.pick(5, 7), &want, d(tier.pick(45, 1800))), two_member_sweep(tier.pick(3, 5), &want, d(tier.pick(55, 3000)))],
         "C04" => vec![arbitrary_sweep(tier.pick(5, 6), &want, d(tier.pick(50, 1800))), honest_sweep(tier.pick(4, 6), &want, d(tier.pick(55, 2400)))],
         "C20" => vec![multi_member(&want), arbitrary_sweep(tier.pick(4, 6), &want, d(tier.pick(50, 1800))), honest_sweep(tier.pick(4, 6), &want, d(tier.pick(55, 2400)))],
         "C07" => vec![honest_sweep(tier.pick(4, 6), &want, d(tier.pick(50, 1800)))],
@@ -728,6 +919,13 @@ pub fn replay(v: &Value) -> Result<(), String> {
             let r = spec_from_json(&v["receiver"]).ok_or("bad receiver")?;
             let sender = install("s", 10_001, &s).ok_or("sender copy not installable")?;
             check_pair(&sender, &s, &r, &mut tally, &mut viols);
+        }
+        "two-members" => {
+            let p = two_member_sweep(3, &["C14", "C04", "C08"], Instant::now() + std::time::Duration::from_secs(600));
+            for x in &p.violations {
+                println!("!! {} [{}] {}", x.property, x.signature, x.what);
+            }
+            return if p.violations.is_empty() { Ok(()) } else { Err("two-member family fails".into()) };
         }
         "arbitrary" => {
             let r = spec_from_json(&v["receiver"]).ok_or("bad receiver")?;
